@@ -61,14 +61,14 @@ class Obligation:
 
 class Event:
     __slots__ = ("idx", "ctx", "body", "bb", "loc", "callee", "kind", "args", "argsnap", "dest", "region",
-                 "inlined", "fn", "ret", "node", "expanded", "gargs", "cond")
+                 "inlined", "fn", "ret", "node", "expanded", "gargs", "cond", "anode")
 
     def __repr__(self):
         return "Event(%s @%s %s)" % (self.callee, self.loc, self.region)
 
 
 class State:
-    __slots__ = ("store", "ctx", "writes", "reads", "assumed")
+    __slots__ = ("store", "ctx", "writes", "reads", "assumed", "aids")
 
     def __init__(self, ranges):
         self.store = {}
@@ -76,6 +76,7 @@ class State:
         self.writes = None
         self.reads = None
         self.assumed = ()
+        self.aids = ()    # nodes of the abstract reachability graph this state continues from
 
     def fork(self):
         s = State.__new__(State)
@@ -84,6 +85,7 @@ class State:
         s.writes = self.writes
         s.reads = self.reads
         s.assumed = self.assumed
+        s.aids = self.aids
         return s
 
 
@@ -132,6 +134,15 @@ class Engine:
         self.events = []
         self.obligations = {}
         self.nodes = {}      # (frame_id, bb) -> visit count
+        # abstract reachability graph: one node per (program node, state that executed it); path-sensitive
+        # exactly as far as the exploration is (states are only merged when they differ in drop flags)
+        self.iter_summaries = {}
+        self.iter_loops = {}   # synthetic loops of closure-taking iterator adapters: (callable frame, 0) -> info
+        self.discr_src = {}    # temp holding a discriminant -> place whose discriminant it is
+        self.switch_src = {}   # switch node -> places whose discriminant the switch tests
+        self.layout_log = []  # (node, frame id, root, path, segments) for every byte-vector construction step
+        self.arg_proj = []   # arg node id -> (frame_id, bb)
+        self.arg_edges = set()
         self.edges = set()   # ((frame_id, bb), (frame_id, bb))
         self.writes_log = []  # (node, (root, path), value)
         self.reads_log = []
@@ -1044,9 +1055,22 @@ class Engine:
                         "spawn_events": [r[0].idx for r in recs],
                         "env_keys": [repr(k) for k in keys],
                         "preconditions": pre}
+                    aids = []
                     for (ev, _, _, _) in recs:
                         self.edges.add(((ev.ctx, ev.bb), (fid, 0), "spawn"))
+                        if getattr(ev, "anode", None) is not None and ev.anode not in aids:
+                            aids.append(ev.anode)
+                    st.aids = tuple(aids)
                 self.exec_blocks(fr, 0, st, None, None)
+
+    def arg_node(self, pnode, st):
+        """new node of the abstract reachability graph for `st` executing program node `pnode`"""
+        an = len(self.arg_proj)
+        self.arg_proj.append(pnode)
+        for p_ in st.aids:
+            self.arg_edges.add((p_, an))
+        st.aids = (an,)
+        return an
 
     def exec_blocks(self, fr, start, st0, region, head):
         """Explore from block `start`. Blocks are processed in reverse post order so that all states
@@ -1062,15 +1086,21 @@ class Engine:
         def push(bb, st, prev):
             pending.setdefault(bb, []).append((st, prev))
 
+        head_arg = [None]
+
         def run_block(bb, st, prev):
             if self.record:
                 self.nodes[(fr.id, bb)] = self.nodes.get((fr.id, bb), 0) + 1
                 if prev is not None and (fr.id, prev) not in self.inlined_nodes:
                     self.edges.add(((fr.id, prev), (fr.id, bb), "flow"))
+                an = self.arg_node((fr.id, bb), st)
+                if bb == head and head_arg[0] is None:
+                    head_arg[0] = an
             for (nb, ns) in self.exec_block(fr, bb, st):
                 if nb == "return":
                     if self.record:
                         self.edges.add(((fr.id, bb), (fr.id, "ret"), "flow"))
+                        self.arg_node((fr.id, "ret"), ns)
                     exits.append(("return", ns, bb))
                 else:
                     push(nb, ns, bb)
@@ -1096,6 +1126,9 @@ class Engine:
                         self.edges.add(((fr.id, prev), (fr.id, bb), "back"))
                     elif self.record and prev is not None:
                         self.back_via_call.add(((fr.id, prev), (fr.id, bb)))
+                    if self.record and head_arg[0] is not None:
+                        for p_ in st.aids:
+                            self.arg_edges.add((p_, head_arg[0]))
                     backs.append(st)
                 continue
             if region is not None and bb not in region:
@@ -1210,6 +1243,8 @@ class Engine:
             a.ctx.neqs = [c for c in na if c in setb]
         for (r, k) in diffs:
             sa[r][k] = I(lin.var(self.fresh("flag", (0, 1))))
+        if b.aids != a.aids:
+            a.aids = a.aids + tuple(x for x in b.aids if x not in a.aids)
         return True
 
     def merge_items(self, fr, bb, items):
@@ -1434,8 +1469,10 @@ class Engine:
                 out.add((root, path))
         return out
 
-    def make_head(self, st_in, fr, h, M, cands):
+    def make_head(self, st_in, fr, h, M, cands, loop_frame=None):
         """head state: st_in with modified places havocked, plus candidate invariants"""
+        if loop_frame is not None:
+            fr = Frame(loop_frame, fr.body, fr.binding, fr.depth, fr.region)
         S = st_in.fork()
         S.writes = None
         S.reads = None
@@ -1565,6 +1602,12 @@ class Engine:
             elif v is None and path and path[-1] == "$len" and root[0] != "L":
                 if (root, path) not in Y:
                     Y.append((root, path))
+            elif v is None and root[0] != "L" and path and path[-1] not in ("$discr", "$secs"):
+                # never written so far: its value is the deterministic lazily-created unknown
+                sti = self.static_type(root, path)
+                if sti is not None and self.prog.types[sti]["k"] == "int" and self.lazy_init(root, path, sti)[0] == "i":
+                    if (root, path) not in Y:
+                        Y.append((root, path))
         for m in ints_M:
             if m not in Y:
                 Y.append(m)
@@ -1752,6 +1795,9 @@ class Engine:
             if k == "assign":
                 root, path, ti = self.resolve(st, fr, s["place"])
                 sub = self.eval_rvalue(st, fr, s["rv"], ti, node)
+                if self.record and s["rv"]["k"] == "discr" and not path:
+                    r2, p2, _ = self.resolve(st, fr, s["rv"]["place"])
+                    self.discr_src[root] = (r2, p2)
                 v = sub.get(())
                 if v is not None and v[0] == "pair":
                     # checked arithmetic result tuple
@@ -1807,6 +1853,12 @@ class Engine:
 
     def exec_switch(self, fr, bb, st, t):
         v, ti = self.eval_operand(st, fr, t["op"])
+        if self.record:
+            pl = t["op"].get("copy") or t["op"].get("move")
+            if pl is not None and not pl["p"]:
+                src = self.discr_src.get(("L", fr.id, pl["l"]))
+                if src is not None:
+                    self.switch_src.setdefault((fr.id, bb), set()).add(src)
         targets = [(int(a), b) for a, b in t["targets"]]
         other = t["otherwise"]
         is_bool = ti is not None and self.prog.types[ti]["k"] == "bool"
@@ -1889,6 +1941,37 @@ class Engine:
             self.switch_log.append(((fr.id, bb), v, [x[0] for x in out]))
         return out
 
+    def fork_bool(self, st, v):
+        """[(truth, state)] for the feasible truth values of a bool value (used by std models)"""
+        if v is None:
+            return [(True, st.fork()), (False, st)]
+        if v[0] == "b":
+            b = v[1]
+            outs = []
+            s2 = st.fork()
+            self.assume_bool(s2, b, True)
+            if not self.dead(s2, b, True, st):
+                outs.append((True, s2))
+            self.assume_bool(st, b, False)
+            if not self.dead(st, b, False, None):
+                outs.append((False, st))
+            return outs
+        if v[0] == "i":
+            k = const_of(v)
+            if k is not None:
+                return [(bool(k), st)]
+            outs = []
+            for truth in (True, False):
+                s2 = st.fork() if truth else st
+                cons = [lin.le(v[1], lin.const(int(truth))), lin.le(lin.const(int(truth)), v[1])]
+                if s2.ctx.infeasible_with(cons):
+                    continue
+                for cc in cons:
+                    s2.ctx.add(cc)
+                outs.append((truth, s2))
+            return outs
+        return [(True, st.fork()), (False, st)]
+
     def dead(self, st, b, truth, _):
         if st.ctx._dead:
             return True
@@ -1933,6 +2016,7 @@ class Engine:
             ev.inlined = False
             ev.ret = None
             ev.node = node
+            ev.anode = st.aids[0] if st.aids else None
             ev.gargs = fn.get("gargs", [])
             ev.cond = None
             self.events.append(ev)
@@ -2000,6 +2084,133 @@ class Engine:
         if v is None:
             return dict(sub)
         return None
+
+    def invoke_callable(self, fr, bb, st, nxt, fsub, fti, arg_subs):
+        """Call a closure / fn-item VALUE from inside a std model (Option/Result combinators ...):
+        crate-local bodies are inlined like any other call, anything else is an uninterpreted application.
+        Returns [(state, result subtree)]."""
+        prog = self.prog
+        node = (fr.id, bb)
+        k = None
+        bti = None
+        if fti is not None:
+            bti = prog.peel_refs(fti)
+            k = prog.types[bti]["k"]
+        self.symctr += 1
+        tmp = ("L", fr.id, ("hof", bb, self.symctr))
+        t_fake = {"t": nxt}
+        outs = None
+        if k == "closure" and prog.types[bti]["def"] in prog.bodies and fr.depth < self.max_depth:
+            cdef = prog.types[bti]["def"]
+            callee = prog.bodies[cdef]
+            tup = {}
+            for i, sub in enumerate(arg_subs):
+                for kk, v in sub.items():
+                    tup[(i,) + kk] = v
+            outs = self.inline_closure(fr, bb, st, t_fake, cdef, [(fsub, fti), (tup, None)], (tmp, (), callee.local_ty(0)), None)
+        elif k == "fndef" and prog.types[bti]["def"] in prog.bodies and fr.depth < self.max_depth:
+            callee = prog.bodies[prog.types[bti]["def"]]
+            args = [(sub, callee.local_ty(i + 1) if i < callee.arg_count else None) for i, sub in enumerate(arg_subs)]
+            outs = self.inline(fr, bb, st, t_fake, callee, args, (tmp, (), callee.local_ty(0)), None, {})
+        if outs is not None:
+            # the call is conditional: states that do not take it continue directly
+            self.inlined_nodes.discard(node)
+            res = []
+            for (_, s2) in outs:
+                sub = self.subtree(s2, tmp, ())
+                s2.store.pop(tmp, None)
+                res.append((s2, sub))
+            return res
+        name = prog.types[bti].get("def", "?") if bti is not None and k in ("closure", "fndef") else "?"
+        argvals = tuple(sub.get((), ("agg", tuple(sorted((repr(kk), v) for kk, v in sub.items())))) for sub in arg_subs)
+        if self.record:
+            self.unmodelled["<callable> " + str(name)] = self.unmodelled.get("<callable> " + str(name), 0) + 1
+        return [(st, {(): T(("app", name, node, argvals))})]
+
+    def summarised_iteration(self, fr, bb, st, nxt, fsub, fti, make_args, adapter=""):
+        """Abstract execution of `loop { f(next element) }` for an unknown number of iterations (closure-taking
+        iterator adapters: for_each, try_for_each, any, all ...). What the callable may modify is found by probing
+        and havocked (loop-head symbols, as for a MIR loop); the callable is then executed once from that state
+        (standing for an arbitrary iteration). The construct is recorded as a synthetic loop whose id is
+        (frame of the callable, 0): rules treat it like any other loop.
+        Returns (loop id or None, state after any number of completed iterations, [(state, result subtree)])."""
+        prog = self.prog
+        node = (fr.id, bb)
+        cdef = None
+        if fti is not None:
+            bti = prog.peel_refs(fti)
+            if prog.types[bti]["k"] in ("closure", "fndef") and prog.types[bti]["def"] in prog.bodies:
+                cdef = prog.types[bti]["def"]
+        cf = fr.id + (("call", cdef, fr.body.path, bb),) if cdef is not None else None
+        saved = self.record
+        self.record = False
+        M = set()
+        before = set(st.store.keys())
+        try:
+            for _ in range(6):
+                probe = st.fork()
+                for (root, path) in M:
+                    self.havoc(probe, root, path, ("iter-summary", node))
+                probe.writes = set()
+                probe.reads = set()
+                self.invoke_callable(fr, bb, probe, nxt, fsub, fti, make_args(probe))
+                W = set()
+                for (root, path) in probe.writes:
+                    if root[0] == "L" and isinstance(root[1], tuple) and len(root[1]) > len(fr.id) and root[1][:len(fr.id)] == fr.id:
+                        continue
+                    if root[0] == "L" and root[1] == fr.id and isinstance(root[2], tuple):
+                        continue   # temporaries of the model itself
+                    if root[0] == "H" and root not in before:
+                        continue
+                    if root[0] == "P" and isinstance(root[1], tuple) and root[1] and root[1][0] == "elem":
+                        continue
+                    W.add((root, path))
+                W = self.normalise_mod(st, W | M)
+                if W == M:
+                    break
+                M = W
+        finally:
+            self.record = saved
+        if cf is not None:
+            head, _ = self.make_head(st, fr, 0, M, [], loop_frame=cf)
+            head.writes, head.reads = st.writes, st.reads
+            if st.writes is not None:
+                st.writes |= set(M)
+        else:
+            head = st
+            for (root, path) in sorted(M, key=repr):
+                self.havoc(head, root, path, ("iter-summary", node), node)
+        head.aids = st.aids
+        exit_state = head.fork()
+        outs = self.invoke_callable(fr, bb, head, nxt, fsub, fti, make_args(head))
+        if self.record and cf is not None:
+            key = (cf, 0)
+            self.iter_loops[key] = {"caller": node, "adapter": adapter}
+            self.loop_cache[key] = {"M": set(M), "cands": [], "sig": (), "reads": set(), "bodies": set()}
+            self.loop_invariants[key] = {"body": cdef, "head": 0, "iterations": 1, "synthetic": adapter,
+                                         "modified": sorted(short_root(m[0]) + "".join("." + short_elem(x) for x in m[1]) for m in M), "invariants": []}
+            self.loop_heads[key] = exit_state
+            self.loop_backs.setdefault(key, [])
+        return ((cf, 0) if cf is not None else None), exit_state, outs
+
+    def iteration_continues(self, loop_id, st, exit_state=None):
+        """a state that finished one call of the callable and goes on with the next element (back edge of the synthetic
+        loop) or with the code after the adapter when the iterator is exhausted (exit_state)"""
+        if exit_state is not None:
+            exit_state.aids = exit_state.aids + tuple(x for x in st.aids if x not in exit_state.aids)
+        if not self.record or loop_id is None:
+            return
+        cf = loop_id[0]
+        self.loop_backs.setdefault(loop_id, []).append(st)
+        self.edges.add(((cf, "ret"), (cf, 0), "back"))
+        entry = None
+        for i in range(len(self.arg_proj) - 1, -1, -1):
+            if self.arg_proj[i] == (cf, 0):
+                entry = i
+                break
+        if entry is not None:
+            for p_ in st.aids:
+                self.arg_edges.add((p_, entry))
 
     def closure_def_of_type(self, ti):
         prog = self.prog
@@ -2167,6 +2378,12 @@ class Engine:
             for r in [r for r in s.store if r[0] == "L" and r[1] == nf.id and r[2] != 0]:
                 del s.store[r]
         base = ss[0].fork()
+        aids = []
+        for s_ in ss:
+            for x in s_.aids:
+                if x not in aids:
+                    aids.append(x)
+        base.aids = tuple(aids)
         self.symctr += 1
         jid = self.symctr
         changed = []
